@@ -460,22 +460,28 @@ func (fc *followerController) handleReplicateSync(stream proto.OxiaLogReplicatio
 			fc.closeStream(err)
 			return
 		}
+		// The controller can be closed (fc.wal set to nil) while this stream is still winding down
+		walLog := fc.wal
 		fc.Unlock()
-
-		oldHeadOffset := fc.wal.LastOffset()
-		if vhook.Enabled {
-			vhook.At("follower.sync.before", fc.wal, oldHeadOffset)
+		if walLog == nil {
+			fc.closeStream(constant.ErrAlreadyClosed)
+			return
 		}
 
-		if err := fc.wal.Sync(stream.Context()); err != nil {
+		oldHeadOffset := walLog.LastOffset()
+		if vhook.Enabled {
+			vhook.At("follower.sync.before", walLog, oldHeadOffset)
+		}
+
+		if err := walLog.Sync(stream.Context()); err != nil {
 			fc.closeStream(err)
 			return
 		}
 
 		// Ack all the entries that were synced in the last round
-		newHeadOffset := fc.wal.LastOffset()
+		newHeadOffset := walLog.LastOffset()
 		if vhook.Enabled {
-			vhook.At("follower.sync.after", fc.wal, oldHeadOffset, newHeadOffset)
+			vhook.At("follower.sync.after", walLog, oldHeadOffset, newHeadOffset)
 		}
 		for offset := oldHeadOffset + 1; offset <= newHeadOffset; offset++ {
 			if err := stream.Send(&proto.Ack{Offset: offset}); err != nil {
